@@ -10,7 +10,7 @@ ROOT = os.path.dirname(os.path.dirname(os.path.abspath(__file__)))
 tier = sys.argv[1] if len(sys.argv) > 1 else "quick"
 only = sys.argv[2:]
 # extra checks to run for a mutant besides its own property (cross-detection that DESIGN mentions)
-EXTRA = {"C03-m2": ["C17"], "C08-m1": ["C07"], "C02-m1": ["C06"]}
+EXTRA = {"C03-m2": ["C17"], "C08-m1": ["C07"], "C01-m1": ["C14"], "C01-m2": ["C12"], "C07-m4": ["C14"]}
 dirs = sorted(d for d in glob.glob(os.path.join(ROOT, "seeded", "C*-m*")) if os.path.isdir(d))
 if only:
     dirs = [d for d in dirs if any(os.path.basename(d).startswith(o) for o in only)]
@@ -48,10 +48,15 @@ def run_prop(prop):
         out.append((name, res, meta))
     return out
 
-rows = []
 with concurrent.futures.ThreadPoolExecutor(max_workers=4) as ex:
-    for res in ex.map(run_prop, sorted(byprop)):
-        rows += res
+    list(ex.map(run_prop, sorted(byprop)))
+# the table is always built from everything on disk, so a partial re-run refreshes only its rows
+rows = []
+for d in sorted(glob.glob(os.path.join(ROOT, "seeded", "C*-m*"))):
+    try:
+        rows.append((os.path.basename(d), json.load(open(os.path.join(d, "verify.json"))), json.load(open(os.path.join(d, "meta.json")))))
+    except Exception:
+        pass
 lines = ["# Seeded property-breaking changes and what the checks made of them", "",
          f"tier: {tier}. `caught` = the property's own check exited 1 with a VIOLATION line on the patched tree.", "",
          "| change | what was changed | needs | suite passes | demo fails | caught by own check | other checks |", "|---|---|---|---|---|---|---|"]
